@@ -245,7 +245,7 @@ contract(
         # copy (hour 24 kept): the general clause 0 <= h < 24 does not hold here, and
         # callers (to_time_zone with an unchanged offset, str of a 24:00 point) rely on
         # exactly this behaviour
-        "name": "24h-plus-zero",
+        "name": "24h-plus-zero", "owner": "C01",
         "when": "(self._hour_of_day == 24 and d_days(other) == 0 and d_hours(other) == 0"
                 " and d_minutes(other) == 0 and d_seconds(other) == 0"
                 " and d_years(other) == 0 and d_months(other) == 0)"
@@ -331,6 +331,17 @@ contract(
     ensures=["(%s) if classname(other) == 'TimePoint' else True" % e for e in SUB_TP_ENS] +
             ["(%s) if classname(other) != 'TimePoint' else True" % e for e in SUB_DUR_ENS],
     cases=[Case(c.name, c.build, ensures=SUB_DUR_ENS) for c in sub_cases()] + sub_tp_cases(),
+    regions=[{
+        # the same behaviour as __add__'s region, reached through p - d == p + (-1 * d)
+        "name": "24h-minus-zero", "owner": "C01",
+        "when": "(self._hour_of_day == 24 and d_days(other) == 0 and d_hours(other) == 0"
+                " and d_minutes(other) == 0 and d_seconds(other) == 0"
+                " and d_years(other) == 0 and d_months(other) == 0)"
+                " if classname(other) in ('Duration', 'TimeZone') else False",
+        "cases": r"(cal|ord|week)-(hms|hm|h)-(exact|week)",
+        "ensures": ["fresh(result)", "tp_same_fields(result, self)",
+                    "result._num_expanded_year_digits == self._num_expanded_year_digits",
+                    "result._time_zone._unknown == self._time_zone._unknown"]}],
     note="TimePoint - Duration == TimePoint + (-1 * Duration) by construction; "
          "TimePoint - TimePoint: exact Duration of the signed distance (C04)")
 
@@ -770,6 +781,27 @@ def at_cases():
             "sod(result) == sod(self)",
             "implies(valid_cal(gy, gm, gd) and date_abs(self) <= cal_abs(gy, gm, gd)"
             " and cal_abs(gy, gm, gd) < date_abs(result), gd != day_of_month)"]))
+        # targets that not every month / year has (29-31, day 366): PARTIAL correctness
+        # (valid result, fields as asked, earliest) - termination is the bounded stand-in's
+        c = at_case("%s-hms:dom-late" % d, d, "hms", ["day_of_month"],
+                    ["MAXDIM - 3 + (MAXDIM == 30) * 3 < day_of_month and day_of_month <= MAXDIM"],
+                    _AT_COMMON + [
+            "is_cal(result) and result._day_of_month == day_of_month",
+            "sod(result) == sod(self)",
+            "implies(valid_cal(gy, gm, gd) and date_abs(self) <= cal_abs(gy, gm, gd)"
+            " and cal_abs(gy, gm, gd) < date_abs(result), gd != day_of_month)"])
+        c.partial = True
+        c.modes = ["gregorian", "365day", "366day"]
+        out.append(c)
+        c = at_case("%s-hms:doy-late" % d, d, "hms", ["day_of_year"],
+                    ["SUM < day_of_year and day_of_year <= SUML"], _AT_COMMON + [
+            "is_ord(result) and result._day_of_year == day_of_year",
+            "sod(result) == sod(self)",
+            "implies(valid_ord(gy, gn) and date_abs(self) <= absday(gy, gn)"
+            " and absday(gy, gn) < date_abs(result), gn != day_of_year)"])
+        c.partial = True
+        c.modes = ["gregorian"]
+        out.append(c)
         out.append(at_case("%s-hms:doy" % d, d, "hms", ["day_of_year"],
                            ["1 <= day_of_year and day_of_year <= SUM"], _AT_COMMON + [
             "is_ord(result) and result._day_of_year == day_of_year",
